@@ -64,7 +64,8 @@ ViewsFails(L, ev) ==
       np  == Len(P)
       E   == [i \in 1..n |-> DH!Embed(L, X[i])]                   \* spec embedding
       D2  == [p \in 1..np |-> DH!SqDist(L, X[P[p][1]], X[P[p][2]])]
-      G   == DH!MetricMatrix(L)
+      G   == IF Len(L) = 0 THEN DM!ZeroMat(Len(ev.M), Len(ev.M))          \* SCML may learn no active basis: zero rows
+             ELSE DH!MetricMatrix(L)
       MS  == Sq(Sum1M(L))                    \* scale of entries of M
       tol2(a, b) == Approx(a, b, 2, 3, Sq(S))
       dOK(v)  == Len(v) = np /\ AllFinV(v) /\ \A p \in 1..np : IsSqrt(v[p], D2[p], 2, 3, Sq(S))
